@@ -2,7 +2,7 @@ SPECIFICATION Spec
 CONSTANTS
   Streams <- TwoStreams
   Classes <- ClassesRT
-  TsClasses <- TsTwo
+  TsClasses <- TsOne
   Cols <- ColsAll
   ClassKinds <- KindsTab
   ClassX <- XTabRT
@@ -10,10 +10,10 @@ CONSTANTS
   LowerOf <- LowerTab
   QNums <- QNumsOne
   QWords <- QWordsTwo
-  MaxEvents = 5
+  MaxEvents = 4
   MaxBatch = 2
-  MaxFlush = 3
-  MaxRotate = 2
+  MaxFlush = 2
+  MaxRotate = 1
   MaxRestart = 1
   MaxPromote = 0
   PromoteOps <- PromoSome
